@@ -23,6 +23,7 @@ def rd(ctx, N, M=16, B=4, K=1, qN=None, tiers=("quick", "thorough"), labels=None
     r["params"]["SPLITBACK"] = 3
     r["params"]["TAIL"] = 0
     r["params"]["TAILLO"] = 0
+    r["params"]["WRAPEOF"] = 0
     if tN is not None:
         r["thorough"] = {"N": tN}
     elif harness == "VerifRdOracle":
@@ -33,7 +34,7 @@ def rd(ctx, N, M=16, B=4, K=1, qN=None, tiers=("quick", "thorough"), labels=None
     return r
 
 
-RD_CONTEXTS_Q = [(0, 3), (1, 2), (2, 2), (3, 2), (4, 6), (5, 5), (11, 2), (12, 2), (16, 2), (17, 2), (24, 2), (25, 1), (26, 1), (52, 2), (57, 2), (60, 2)]
+RD_CONTEXTS_Q = [(0, 3), (1, 2), (2, 2), (3, 2), (6, 1), (4, 6), (5, 5), (11, 2), (12, 2), (16, 2), (17, 2), (24, 2), (25, 1), (26, 1), (52, 2), (57, 2), (60, 2)]
 
 def rdp(harness, ctx, N, picks, labels, covers=(), M=16, tiers=("quick", "thorough"), extra=None):
     r = rd(ctx, N, M=M, labels=labels, covers=covers, harness=harness, tiers=tiers, extra=extra)
@@ -47,7 +48,8 @@ RD_CONTEXTS_T = [(0, 4), (1, 3), (2, 3), (13, 1), (15, 2), (31, 2), (32, 3), (36
 CHECKS = {
     "C02": {
         "level": "model_checking",
-        "runs": [rd(c, n, labels=["C02:", "REF:"], covers=["complete"] if c not in (3, 17, 25, 26, 57, 60) else []) for c, n in RD_CONTEXTS_Q] +
+        "runs": [rd(c, n, labels=["C02:", "REF:"], covers=["complete"] if c not in (3, 6, 17, 25, 26, 57, 60) else []) for c, n in RD_CONTEXTS_Q] +
+                [rd(6, 2, K=k, labels=["C02:", "REF:"]) for k in (0, 2, 3)] +
                 [rd(c, n, labels=["C02:", "REF:"], tiers=["thorough"]) for c, n in RD_CONTEXTS_T],
         "assumptions": ["oracle: reference inflater (harness/common/zz_verif_ref.go.tmpl, strict mode) cross-checked on every path against the real compress/flate executed symbolically on the same bytes (REF:* assertions)",
                         "window harness: stream = concrete context prefix ++ N symbolic bytes ++ suffix; output of the window bounded by M bytes (longer outputs are cut by Assume)"],
@@ -55,6 +57,7 @@ CHECKS = {
     "C03": {
         "level": "model_checking",
         "runs": [rd(c, n, labels=["C03:"], covers=["truncated"] if c not in (25, 26, 60) else []) for c, n in RD_CONTEXTS_Q] +
+                [rd(6, 2, K=k, labels=["C03:"]) for k in (0, 2, 3)] +
                 [rd(c, n, labels=["C03:"], tiers=["thorough"]) for c, n in RD_CONTEXTS_T] +
                 [rdp("VerifRdReset", 0, 2, {"olderr": oe, "wp": wp}, ["C13:"], ["ran"]) for (oe, wp) in [(0, 1), (1, 3)]],
         "assumptions": ["oracle: reference inflater strict + permissive; stdlib compress/flate executed symbolically for error kinds",
@@ -102,15 +105,20 @@ def wr(harness, picks, params, labels, covers=(), tiers=("quick", "thorough"), t
 
 
 def wr_seq(labels):
-    return [wr("VerifWrSeq", {"setting": 5}, {"K": 3, "W": 16, "HUGE": 0, "HUGESZ": 0}, labels, ["close", "flush"], thorough={"K": 4}),
-            wr("VerifWrSeq", {"setting": 5}, {"K": 2, "W": 16, "HUGE": 1, "HUGESZ": 32800}, labels, ["close", "flush", "huge"], thorough={"K": 3}),
-            wr("VerifWrSeq", {"setting": 6}, {"K": 2, "W": 16, "HUGE": 1, "HUGESZ": 32950}, labels, ["close", "flush", "huge"], tiers=["thorough"]),
-            wr("VerifWrSeq", {"setting": 5}, {"K": 2, "W": 16, "HUGE": 1, "HUGESZ": 32767}, labels, ["close", "flush", "huge"], tiers=["thorough"]),
-            wr("VerifWrSeq", {"setting": 6}, {"K": 3, "W": 16, "HUGE": 0, "HUGESZ": 0}, labels, ["close", "flush"], thorough={"K": 4}),
-            wr("VerifWrSeq", {"setting": 0}, {"K": 2, "W": 16, "HUGE": 0, "HUGESZ": 0}, labels, ["close", "flush"], thorough={"K": 3}),
-            wr("VerifWrSeq", {"setting": 3}, {"K": 2, "W": 16, "HUGE": 0, "HUGESZ": 0}, labels, ["close", "flush"], thorough={"K": 3}),
-            wr("VerifWrSeq", {"setting": 1}, {"K": 2, "W": 16, "HUGE": 0, "HUGESZ": 0}, labels, ["close", "flush"], tiers=["thorough"]),
-            wr("VerifWrSeq", {"setting": 4}, {"K": 2, "W": 16, "HUGE": 0, "HUGESZ": 0}, labels, ["close", "flush"], tiers=["thorough"])]
+    return [wr("VerifWrSeq", {"setting": 5}, {"K": 3, "W": 16, "HUGE": 0, "HUGESZ": 0, "BIGEXACT": 0, "FAR": 0}, labels, ["close", "flush"], thorough={"K": 4}),
+            wr("VerifWrSeq", {"setting": 5}, {"K": 2, "W": 16, "HUGE": 1, "HUGESZ": 32800, "BIGEXACT": 0, "FAR": 0}, labels, ["close", "flush", "huge"], thorough={"K": 3}),
+            wr("VerifWrSeq", {"setting": 6}, {"K": 2, "W": 16, "HUGE": 1, "HUGESZ": 32950, "BIGEXACT": 0, "FAR": 0}, labels, ["close", "flush", "huge"], tiers=["thorough"]),
+            wr("VerifWrSeq", {"setting": 5}, {"K": 2, "W": 16, "HUGE": 1, "HUGESZ": 32767, "BIGEXACT": 0, "FAR": 0}, labels, ["close", "flush", "huge"], tiers=["thorough"]),
+            wr("VerifWrSeq", {"setting": 6}, {"K": 3, "W": 16, "HUGE": 0, "HUGESZ": 0, "BIGEXACT": 0, "FAR": 0}, labels, ["close", "flush"], thorough={"K": 4}),
+            wr("VerifWrSeq", {"setting": 0}, {"K": 2, "W": 16, "HUGE": 0, "HUGESZ": 0, "BIGEXACT": 0, "FAR": 0}, labels, ["close", "flush"], thorough={"K": 3}),
+            wr("VerifWrSeq", {"setting": 3}, {"K": 2, "W": 16, "HUGE": 0, "HUGESZ": 0, "BIGEXACT": 0, "FAR": 0}, labels, ["close", "flush"], thorough={"K": 3}),
+            wr("VerifWrSeq", {"setting": 0}, {"K": 2, "W": 16, "HUGE": 0, "HUGESZ": 0, "BIGEXACT": 1, "FAR": 0}, labels, ["close", "flush"], thorough={"K": 3}),
+            wr("VerifWrSeq", {"setting": 5}, {"K": 3, "W": 16, "HUGE": 0, "HUGESZ": 0, "BIGEXACT": 1, "FAR": 0}, labels, ["close", "flush"]),
+            wr("VerifWrSeq", {"setting": 3}, {"K": 3, "W": 16, "HUGE": 0, "HUGESZ": 0, "BIGEXACT": 0, "FAR": 1}, labels, ["close", "flush"]),
+            wr("VerifWrSeq", {"setting": 4}, {"K": 3, "W": 16, "HUGE": 0, "HUGESZ": 0, "BIGEXACT": 0, "FAR": 1}, labels, ["close", "flush"], tiers=["thorough"]),
+            wr("VerifWrSeq", {"setting": 5}, {"K": 3, "W": 16, "HUGE": 0, "HUGESZ": 0, "BIGEXACT": 0, "FAR": 1}, labels, ["close", "flush"]),
+            wr("VerifWrSeq", {"setting": 1}, {"K": 2, "W": 16, "HUGE": 0, "HUGESZ": 0, "BIGEXACT": 0, "FAR": 0}, labels, ["close", "flush"], tiers=["thorough"]),
+            wr("VerifWrSeq", {"setting": 4}, {"K": 2, "W": 16, "HUGE": 0, "HUGESZ": 0, "BIGEXACT": 0, "FAR": 0}, labels, ["close", "flush"], tiers=["thorough"])]
 
 
 def kernels(labels, which):
@@ -141,25 +149,26 @@ CHECKS.update({
             "assumptions": ["flush decoding oracle: reference inflater must return all data written so far, then need-more-input exactly at the end of the emitted bytes",
                             "kernel lemmas: flushLastByte / writeEmptyBlock from an arbitrary accumulator (bitLen 0..64 symbolic)"]},
     "C01": {"level": "model_checking", "runs": kernels(["C01:"], ["dist", "bitbuf", "enc", "lz77"]) + wr_seq(["C01:"]) +
-                    [wr("VerifWrGaps", {"setting": st}, {"W": 16, "XLO": lo, "XHI": hi, "LEN": 40, "HUGE": 0, "HUGESZ": 0}, ["C01:"], ["closed"]) for (st, lo, hi) in [(0, 0, 0), (5, 97, 97), (0, 100, 101)]] +
-                    [wr("VerifWrGaps", {"setting": st}, {"W": 16, "XLO": 0, "XHI": 255, "LEN": 40, "HUGE": 0, "HUGESZ": 0}, ["C01:"], ["closed"], tiers=["thorough"]) for st in (0, 5, 6)],
+                    [wr("VerifWrGaps", {"setting": st}, {"W": 16, "XLO": lo, "XHI": hi, "LEN": 40, "HUGE": 0, "HUGESZ": 0, "BIGEXACT": 0, "FAR": 0}, ["C01:"], ["closed"]) for (st, lo, hi) in [(0, 0, 0), (5, 97, 97), (0, 100, 101)]] +
+                    [wr("VerifWrGaps", {"setting": st}, {"W": 16, "XLO": 0, "XHI": 255, "LEN": 40, "HUGE": 0, "HUGESZ": 0, "BIGEXACT": 0, "FAR": 0}, ["C01:"], ["closed"], tiers=["thorough"]) for st in (0, 5, 6)],
             "assumptions": ["C01 is decided as kernel lemmas on the real code from symbolic pre-states (one lz77 step, token packing, bit packing) plus bounded operation sequences with concrete data decoded by the reference inflater; the composition argument (DESIGN.md C01) is not mechanised",
                             "assembly encoders / LZ77 kernels (acceleration levels 1..4) are outside the encoder; portable Go paths (noasmtest) are what is executed"]},
     "C19": {"level": "model_checking", "runs": kernels(["C19:"], ["dist", "lz77"]) + [r for r in wr_seq(["C19:"]) if r["picks"]["setting"] in (3, 4, 5)],
             "assumptions": ["one lz77 step from an arbitrary state: D <= historySize for historySize in {8, 4096, 32768}; positions may have wrapped (processed up to 2^18)"]},
     "C14": {"level": "model_checking",
-            "runs": [wr("VerifWrFail", {"setting": st, "recover": rc}, {"K": 3, "W": 16, "KMAX": km, "HUGE": 0, "HUGESZ": 0}, ["C14:"], ["failure-reported", "op-after-failure"], thorough={"K": 4})
+            "runs": [wr("VerifWrFail", {"setting": st, "recover": rc}, {"K": 3, "W": 16, "KMAX": km, "HUGE": 0, "HUGESZ": 0, "BIGEXACT": 0, "FAR": 0}, ["C14:"], ["failure-reported", "op-after-failure"], thorough={"K": 4})
                      for (st, km) in [(5, 6), (6, 6), (0, 4), (3, 4)] for rc in (0, 1)] +
-                    [wr("VerifWrFail", {"setting": 5, "recover": rc}, {"K": 2, "W": 16, "KMAX": 8, "HUGE": 1, "HUGESZ": 36000}, ["C14:"], ["failure-reported", "huge"], thorough={"K": 3}) for rc in (0, 1)],
+                    [wr("VerifWrFail", {"setting": 5, "recover": rc}, {"K": 2, "W": 16, "KMAX": 8, "HUGE": 1, "HUGESZ": 36000, "BIGEXACT": 0, "FAR": 0}, ["C14:"], ["failure-reported", "huge"], thorough={"K": 3}) for rc in (0, 1)],
             "assumptions": ["destination model: fails at its k-th call (k symbolic) with a distinct error value, then either keeps failing or recovers (accepts data again)"]},
     "C12": {"level": "model_checking",
-            "runs": [wr("VerifWrReset", {"setting": st, "oldfails": of}, {"K1": 2, "K2": 2, "W": 16}, ["C12:"], ["compared"], thorough={"K1": 3})
+            "runs": [wr("VerifWrReset", {"setting": st, "oldfails": of}, {"K1": 2, "K2": 2, "W": 16, "BIGEXACT": 0}, ["C12:"], ["compared"], thorough={"K1": 3})
                      for st in (5, 6, 0) for of in (0, 1)],
             "assumptions": ["histories h1 (K1 operations) and h2 (K2 operations) are symbolic operation sequences case-split by the solver; content fixed"]},
     "C09": {"level": "model_checking",
-            "runs": [wr("VerifWrPartition", {"setting": st}, {"W": 16, "L": L, "F": F}, ["C09:"], ["compared"])
+            "runs": [wr("VerifWrPartition", {"setting": st}, {"W": 16, "L": L, "F": F, "PLO": 0, "PHI": L, "BIGEXACT": 0}, ["C09:"], ["compared"])
                      for (st, L, F) in [(5, 700, 0), (6, 700, 0), (5, 700, 40), (5, 700, 150), (6, 700, 289)]] +
-                    [wr("VerifWrPartition", {"setting": 0}, {"W": 16, "L": 70000, "F": 0}, ["C09:"], ["compared"], tiers=["thorough"])],
+                    [wr("VerifWrPartition", {"setting": 0}, {"W": 16, "L": 70000, "F": 0, "PLO": lo, "PHI": hi, "BIGEXACT": 0}, ["C09:"], ["compared"], tiers=tiers)
+                     for (lo, hi, tiers) in [(65530, 65545, ["quick", "thorough"]), (0, 40, ["thorough"]), (65000, 66000, ["thorough"])]],
             "assumptions": ["relational: the same concrete data with the same Flush position, written in one piece vs split at a symbolic point p (every p in [F, L], case-split by the solver) with an extra zero-length Write",
                             "window W=16 instances of the parametric dynCompressor (buffer 2W+261 bytes); W in {4096, 32768} is not explored for every split point"]},
 })
@@ -175,6 +184,7 @@ def gz(harness, picks, params, labels, covers=(), pkg=GZIP, tiers=("quick", "tho
 
 GZ_WRITE = [gz("VerifGzWrite", {"level": lv, "ops": ops, "extra": ex}, {"NAME": nm, "COMMENT": cm, "EXTRA": 1, "P": p}, ["C06:"], ["written"])
             for (lv, ops, ex, nm, cm, p) in [(0, 0, 1, 1, 1, 2), (0, 1, 0, 2, 0, 2), (0, 2, 0, 0, 1, 0), (0, 3, 1, 1, 0, 2), (1, 1, 0, 1, 1, 4), (2, 0, 1, 0, 0, 4), (3, 1, 0, 1, 0, 4), (0, 4, 0, 1, 0, 4), (1, 5, 1, 0, 1, 4), (3, 4, 0, 0, 0, 4)]]
+GZ_WRITE += [gz("VerifGzWrite", {"level": 0, "ops": 0, "extra": 1}, {"NAME": 1, "COMMENT": 0, "EXTRA": 0, "P": 2}, ["C06:"], ["written"])]
 ZL_WRITE = [gz("VerifZlWrite", {"level": lv, "dict": d, "ops": ops}, {"P": p}, ["C06:"], ["written"], pkg=ZLIB)
             for (lv, d, ops, p) in [(0, 0, 1, 2), (0, 1, 0, 2), (1, 0, 1, 4), (2, 0, 0, 4), (3, 1, 3, 4), (4, 0, 2, 0), (5, 0, 1, 4), (5, 1, 0, 4), (0, 0, 4, 4), (1, 0, 5, 4), (2, 1, 4, 4), (5, 0, 4, 4)]]
 
@@ -225,3 +235,8 @@ CHECKS["C18"] = {
     "assumptions": ["decode direction only: decodeHuffmanAsmArchV3 is executed from the current decode_amd64.s by asmsym (engine/asm.go: 33 mnemonics, flags as last compare/result, memory operands through the byte-granular heap so that displacements are reads of the Go struct layout); the AVX2/AVX-512 encoders and the LZ77 assembly are outside",
                     "the window sits inside a block followed by >= 40 concrete bytes so that the assembly fast path is entered; acceleration level is switched by assigning cpu.ArchLevel in the harness (0 vs 3)"],
 }
+
+CHECKS["C14"]["runs"] += [gz("VerifGzWrFail", {"recover": rc, "level": lv}, {"K": 3, "KMAX": 5}, ["C14:"], ["failure-reported", "op-after-failure"]) for (rc, lv) in [(0, 0), (1, 1)]]
+CHECKS["C14"]["runs"] += [gz("VerifZlWrFail", {"recover": rc, "level": lv, "dict": d}, {"K": 3, "KMAX": 5}, ["C14:"], ["failure-reported", "op-after-failure"], pkg=ZLIB) for (rc, lv, d) in [(0, 0, 0), (1, 1, 1), (1, 2, 0)]]
+CHECKS["C13"]["runs"] += [gz("VerifZlReset", {"dict": 2, "hist": h}, {"N": 3, "M": 8}, ["C13:"], ["ran"], pkg=ZLIB, validate=False) for h in (0, 1)]
+CHECKS["C15"]["runs"] += [rdp("VerifRdFail", c, n, {"with": w}, ["C15:"], ["faulted"], extra={"WRAPEOF": 1}) for (c, n, w) in [(0, 2, 0), (12, 1, 1)]]
